@@ -14,10 +14,14 @@ import (
 	"encoding/json"
 	"flag"
 	"fmt"
+	"io"
 	"go/ast"
+	"go/importer"
 	"go/parser"
 	"go/token"
+	"go/types"
 	"os"
+	"os/exec"
 	"path/filepath"
 	"sort"
 	"strings"
@@ -40,6 +44,20 @@ type fileRewriter struct {
 	opts   opts
 	errs   []string
 	skip   map[ast.Node]bool
+	info   *types.Info // nil when the package could not be type-checked
+}
+
+// isChan reports whether the expression's type is a channel (needs type information).
+func (r *fileRewriter) isChan(e ast.Expr) bool {
+	if r.info == nil {
+		return false
+	}
+	t := r.info.TypeOf(e)
+	if t == nil {
+		return false
+	}
+	_, ok := t.Underlying().(*types.Chan)
+	return ok
 }
 
 type opts struct{ time, yield, stdio, dailysink bool }
@@ -151,6 +169,10 @@ func (r *fileRewriter) rewrite() {
 				r.usesMC = true
 				r.replace(v.Fun.Pos(), v.Fun.End(), "mcrt.Close")
 			}
+			if (isIdent(v.Fun, "len") || isIdent(v.Fun, "cap")) && len(v.Args) == 1 && r.isChan(v.Args[0]) && isIdent(v.Fun, "len") {
+				r.usesMC = true
+				r.replace(v.Fun.Pos(), v.Fun.End(), "mcrt.Len")
+			}
 			if r.opts.dailysink {
 				if _, ok := isPkgSel(v.Fun, "dailylogger", "New"); ok {
 					r.usesMC = true
@@ -179,8 +201,28 @@ func (r *fileRewriter) rewrite() {
 				}
 			}
 		case *ast.RangeStmt:
-			// a range over a channel cannot be recognised without types; the
-			// scheduler's watchdog reports it as a machinery failure if it occurs.
+			// `for v := range ch` (recognised with type information; without it the
+			// scheduler's watchdog reports the stall as a machinery failure)
+			if r.isChan(v.X) {
+				r.usesMC = true
+				ch, ok := r.exprText(v.X, "range expression")
+				if !ok {
+					return true
+				}
+				recv := "_, _mc_ok := mcrt.Recv2(" + ch + ")"
+				if v.Key != nil {
+					if v.Tok == token.DEFINE {
+						recv = r.text(v.Key) + ", _mc_ok := mcrt.Recv2(" + ch + "); _ = " + r.text(v.Key)
+					} else {
+						recv = "var _mc_ok bool; " + r.text(v.Key) + ", _mc_ok = mcrt.Recv2(" + ch + ")"
+					}
+				}
+				r.replace(v.For, v.Body.Lbrace+1, "for { "+recv+"; if !_mc_ok { break }; ")
+				if r.opts.yield {
+					r.insert(v.Body.Lbrace+1, fmt.Sprintf(" mcrt.Yield(%q); ", r.posLabel(v.Pos())))
+				}
+				return true
+			}
 			if r.opts.yield {
 				r.usesMC = true
 				r.insert(v.Body.Lbrace+1, fmt.Sprintf(" mcrt.Yield(%q); ", r.posLabel(v.Pos())))
@@ -434,8 +476,10 @@ func main() {
 	overlay := map[string]string{}
 	var report []string
 	n := 0
+	exports := exportData(*repo, strings.Split(*pkgs, ","))
 	for _, pk := range strings.Split(*pkgs, ",") {
 		dir := filepath.Join(*repo, pk)
+		info := typeCheck(dir, exports)
 		ents, err := os.ReadDir(dir)
 		if err != nil {
 			fmt.Fprintf(os.Stderr, "instr: %v\n", err)
@@ -458,7 +502,10 @@ func main() {
 				fmt.Fprintf(os.Stderr, "instr: cannot parse %s: %v\n", path, err)
 				os.Exit(2)
 			}
-			r := &fileRewriter{fset: fset, src: src, file: f, rel: filepath.Join(pk, name), keep: map[string]bool{}, skip: map[ast.Node]bool{},
+			if ti, ok := info[path]; ok {
+				fset, f = ti.fset, ti.file
+			}
+			r := &fileRewriter{fset: fset, src: src, file: f, rel: filepath.Join(pk, name), keep: map[string]bool{}, skip: map[ast.Node]bool{}, info: infoOf(info, path),
 				opts: opts{time: tm[pk], yield: ym[pk], stdio: sm[pk], dailysink: dm[pk]}}
 			r.rewrite()
 			if len(r.errs) > 0 {
@@ -507,3 +554,88 @@ type multi []string
 
 func (m *multi) String() string     { return strings.Join(*m, ",") }
 func (m *multi) Set(s string) error { *m = append(*m, s); return nil }
+
+// ---- type information (best effort: without it only syntactic rules apply) ----
+
+type typedFile struct {
+	fset *token.FileSet
+	file *ast.File
+	info *types.Info
+}
+
+func infoOf(m map[string]typedFile, path string) *types.Info {
+	if t, ok := m[path]; ok {
+		return t.info
+	}
+	return nil
+}
+
+// exportData asks the go command for the export data of everything the
+// packages import (compiled from the current tree).
+func exportData(repo string, pkgs []string) map[string]string {
+	args := []string{"list", "-export", "-deps", "-json=ImportPath,Export"}
+	for _, p := range pkgs {
+		args = append(args, "./"+p)
+	}
+	cmd := exec.Command("go", args...)
+	cmd.Dir = repo
+	cmd.Env = append(os.Environ(), "GOFLAGS=", "GOPROXY=off", "GOSUMDB=off")
+	out, err := cmd.Output()
+	m := map[string]string{}
+	if err != nil {
+		return m
+	}
+	dec := json.NewDecoder(strings.NewReader(string(out)))
+	for dec.More() {
+		var e struct{ ImportPath, Export string }
+		if dec.Decode(&e) != nil {
+			break
+		}
+		if e.Export != "" {
+			m[e.ImportPath] = e.Export
+		}
+	}
+	return m
+}
+
+// typeCheck parses and type-checks the non-test files of one package directory.
+func typeCheck(dir string, exports map[string]string) map[string]typedFile {
+	res := map[string]typedFile{}
+	if len(exports) == 0 {
+		return res
+	}
+	fset := token.NewFileSet()
+	ents, _ := os.ReadDir(dir)
+	var files []*ast.File
+	var paths []string
+	for _, e := range ents {
+		n := e.Name()
+		if e.IsDir() || !strings.HasSuffix(n, ".go") || strings.HasSuffix(n, "_test.go") {
+			continue
+		}
+		p := filepath.Join(dir, n)
+		f, err := parser.ParseFile(fset, p, nil, parser.ParseComments)
+		if err != nil {
+			return res
+		}
+		files = append(files, f)
+		paths = append(paths, p)
+	}
+	if len(files) == 0 {
+		return res
+	}
+	lookup := func(path string) (io.ReadCloser, error) {
+		e, ok := exports[path]
+		if !ok {
+			return nil, fmt.Errorf("no export data for %s", path)
+		}
+		return os.Open(e)
+	}
+	info := &types.Info{Types: map[ast.Expr]types.TypeAndValue{}}
+	conf := types.Config{Importer: importer.ForCompiler(fset, "gc", lookup), Error: func(error) {}}
+	conf.Check(files[0].Name.Name, fset, files, info) // errors tolerated: partial information is still useful
+	for i, f := range files {
+		res[paths[i]] = typedFile{fset, f, info}
+	}
+	return res
+}
